@@ -198,7 +198,7 @@ def _sym_range(*a):
             if not cond:
                 return
             if n >= bound:
-                raise core.PathLimit("unwinding bound %d reached in range()" % bound)
+                raise core.UnwindBound("unwinding bound %d reached in range()" % bound)
             yield i
             i = i + step
             n += 1
